@@ -1176,6 +1176,44 @@ class Gen:
             else:
                 r.shuffle(idx)
             orders.append(idx)
+        # persistent variables that are read but never assigned would make inference fail for a trivial
+        # reason: give each an initialising assignment of its intended kind (most of the time)
+        assigned = set()
+        read = set()
+        for _pn, ss in phases:
+            for st in ss:
+                if st[0] == "assign":
+                    rd = {e[1] for e in subexprs(st[3]) if e[0] == "var"}
+                    if st[2] is None and st[1] not in rd:      # x <- x + ... cannot bootstrap the kind of x
+                        assigned.add(st[1])
+                    read |= rd
+                elif st[0] == "call":
+                    assigned |= set(st[1])
+                    for a in st[3]:
+                        read |= {e[1] for e in subexprs(a) if e[0] == "var"}
+        init = {
+            "<state>y": ("call", ("<state>y",), "<func>f", (("var", "<t>"), ("var", "<state>y")), ()),
+            "<state>z": ("call", ("<state>z",), "<func>g", (("var", "<t>"), ("var", "<state>y"), ("var", "<state>z")), ()),
+            "<p>a": ("call", ("<p>a",), "<builtin>array", (("const", "CInt", 4),), ()),
+            "<p>c": ("assign", "<p>c", None, ("prod", (("const", "CComplex", (0.0, 1.0)), ("var", "<t>"))), ()),
+            "<p>s": ("assign", "<p>s", None, ("var", "<dt>"), ()),
+            "<p>b": ("assign", "<p>b", None, ("cmp", ">", ("var", "<t>"), ("const", "CInt", 0)), ()),
+        }
+        extra = [init[v] for v in sorted(read - assigned) if v in init and r.random() < 0.9]
+        if any(e[1] == ("<state>z",) for e in extra if e[0] == "call") and "<state>y" not in assigned \
+                and init["<state>y"] not in extra:
+            extra.insert(0, init["<state>y"])
+        if extra:
+            for e in extra:
+                if e[0] == "call" and e[2].startswith("<func>"):
+                    funcs[e[2]] = USER_FUNCS[e[2]]
+            pi = r.randrange(len(phases))
+            pn, ss = phases[pi]
+            k = len(extra)
+            phases[pi] = (pn, tuple(extra) + ss)
+            orders[pi] = [i + k for i in orders[pi]]
+            pos = r.choice([0, len(orders[pi])])
+            orders[pi] = orders[pi][:pos] + list(range(k)) + orders[pi][pos:]
         return {"phases": phases, "forced": r.random() < 0.5, "funcs": funcs, "order": orders}
 
 
